@@ -111,10 +111,11 @@ func c09Deep(c *core.Ctx, p *c09Pair) {
 		return
 	}
 	e := p.elem
-	size := e.arrLen
+	full := e.arrLen // arrays are always given their complete storage; only the first eight octets are varied
 	if e.kind == "buf" {
-		size = 8
+		full = 8
 	}
+	size := full
 	if size < 3 {
 		return
 	}
@@ -127,13 +128,13 @@ func c09Deep(c *core.Ctx, p *c09Pair) {
 		for j := i + 1; j < size; j++ {
 			for _, vi := range alpha {
 				for _, vj := range alpha {
-					prior := make([]byte, size)
+					prior := make([]byte, full)
 					prior[i], prior[j] = vi, vj
 					for v := 0; v < 256; v++ {
 						evals++
 						arg := []byte{byte(v)}
-						c09Exec(c, p, prior, 0, uint16(size), arg, func() c09Case {
-							return c09Case{Type: p.t.Name, Field: p.field, Ann: p.annText, Prior: hexs(prior), Len: uint16(size), ArgHex: hexs(arg)}
+						c09Exec(c, p, prior, 0, uint16(full), arg, func() c09Case {
+							return c09Case{Type: p.t.Name, Field: p.field, Ann: p.annText, Prior: hexs(prior), Len: uint16(full), ArgHex: hexs(arg)}
 						})
 					}
 				}
